@@ -56,7 +56,7 @@ prop(
 
 prop(
     "C01",
-    contract_modules=["contracts.c01", "contracts.c01r"],
+    contract_modules=["contracts.c01", "contracts.c01r", "contracts.c01dcd"],
     bcc="c01",
     level='other',
     claimed=True,
